@@ -1162,3 +1162,12 @@ M('C11', 'accounts-table-types-from-defaults', SB,
 M('C05', 'in-subquery-zero-columns-accepted', CO,
   "len(right.columns) != 1", "len(right.columns) > 1",
   ('R-INOP', 'Compiler._inop'))
+TB = 'beanquery/tables.py'
+M('C01', 'null-table-empty', TB,
+  "        return iter([None])", "        return iter([])",
+  ('R-ROWGEN', 'NullTable.__iter__'))
+T('C01', 'twin-null-table-generator', TB,
+  "        return iter([None])", "        yield None")
+M('C20', 'module-level-compiler-reused', CO,
+  "    return Compiler(context).compile(statement, parameters)", "    global _COMPILER\n    if _COMPILER is None or _COMPILER.context is not context:\n        _COMPILER = Compiler(context)\n    return _COMPILER.compile(statement, parameters)\n\n\n_COMPILER = None",
+  ('R-COMPILEFN', 'compile'))
